@@ -18,6 +18,7 @@ import (
 	"fmt"
 	"os"
 	"os/exec"
+	"sort"
 	"strconv"
 	"strings"
 	"sync"
@@ -145,6 +146,27 @@ func vfC18Open(t *testing.T, env string) (*vfC18Out, func()) {
 	return o, func() { o.w.Flush(); f.Close() }
 }
 
+// vfC18CanonStringMap re-encodes a [string map] body with sorted keys (Go map iteration order is
+// random, the order of a STARTUP body means nothing); ok = the body is a complete plain string map.
+func vfC18CanonStringMap(body []byte) (canon []byte, ok bool) {
+	r := &vfR{b: body}
+	m := r.StringMap()
+	if r.err != nil || len(r.b) != 0 {
+		return body, false
+	}
+	keys := make([]string, 0, len(m))
+	for k := range m {
+		keys = append(keys, k)
+	}
+	sort.Strings(keys)
+	w := &vfW{}
+	w.Short(len(keys))
+	for _, k := range keys {
+		w.String(k).String(m[k])
+	}
+	return w.b, true
+}
+
 // ---------------------------------------------------------------- A: framer level
 
 func vfC18Requests(proto int) (names []string, reqs []frameBuilder) {
@@ -217,6 +239,12 @@ func TestVfC18Frames(t *testing.T) {
 						t.Fatalf("cannot build %s without compressor: %s", name, p0)
 					}
 					wire, p1 := build(vfC18Compressor(alg))
+					if plain.Op == vfOpStartup {
+						plain.Body, _ = vfC18CanonStringMap(plain.Body)
+						if wire != nil {
+							wire.Body, _ = vfC18CanonStringMap(wire.Body)
+						}
+					}
 					m := map[string]interface{}{"k": "frame", "alg": alg, "proto": proto, "name": name, "tracing": tracing,
 						"op": int(plain.Op), "flags": 0, "wire": []int{}, "logical": vfC18Ints(plain.Body), "panic": p1}
 					if wire != nil {
@@ -355,8 +383,14 @@ func TestVfC18Conns(t *testing.T) {
 						}
 						m := map[string]interface{}{"k": "wire", "configured": conf, "advertised": cc.Advertised, "advkey": cc.AdvKey,
 							"proto": proto, "conn": ci, "idx": fi, "startup": startup, "after": after, "op": int(f.Op), "flags": int(f.Flags),
-							"wire": vfC18Ints(f.Body), "haslog": paired, "logical": []int{}}
-						if paired {
+							"wire": vfC18Ints(f.Body), "haslog": paired && f.Op != vfOpStartup, "logical": []int{}, "plainok": true}
+						if f.Op == vfOpStartup {
+							_, ok := vfC18CanonStringMap(f.Body)
+							m["plainok"] = ok
+						} else if f.Op == vfOpOptions {
+							m["plainok"] = len(f.Body) == 0
+						}
+						if paired && f.Op != vfOpStartup {
 							m["logical"] = vfC18Ints(base[ci][fi].Body)
 						} else {
 							nopaired++
@@ -468,7 +502,7 @@ func vfC18RunResp(c vfC18RespCase) string {
 			nc.Compression = q.Startup["COMPRESSION"]
 			nc.ReplyFlags(f, flags, vfOpReady, body)
 			return true
-		case c.Stage == "result" && f.Op == vfOpQuery && strings.Contains(q.Stmt, "ks.tbl"):
+		case c.Stage == "result" && (f.Op == vfOpExecute || f.Op == vfOpQuery && strings.Contains(q.Stmt, "ks.tbl")):
 			nc.ReplyFlags(f, flags, vfOpResult, body)
 			return true
 		case c.Stage == "prepared" && f.Op == vfOpPrepare:
@@ -508,6 +542,7 @@ func vfC18RunResp(c vfC18RespCase) string {
 			s, d, err = vfSingleNodeSession(n, 4, mod)
 		}
 		if err != nil {
+			fmt.Printf("VFCHILD detail=%v\n", err)
 			done <- "error"
 			return
 		}
@@ -516,6 +551,7 @@ func vfC18RunResp(c vfC18RespCase) string {
 		case "result":
 			var v string
 			if qerr := s.Query("SELECT v FROM ks.tbl").Scan(&v); qerr != nil {
+				fmt.Printf("VFCHILD detail=%v\n", qerr)
 				done <- "error"
 			} else if v != "forty-two" {
 				done <- "wrong-value:" + v
@@ -524,6 +560,7 @@ func vfC18RunResp(c vfC18RespCase) string {
 			}
 		case "prepared":
 			if qerr := s.Query("SELECT v FROM ks.tbl WHERE k = ?", 1).Exec(); qerr != nil {
+				fmt.Printf("VFCHILD detail=%v\n", qerr)
 				done <- "error"
 			} else {
 				done <- "value"
@@ -590,6 +627,9 @@ func TestVfC18Resp(t *testing.T) {
 				for _, ln := range strings.Split(string(o), "\n") {
 					if strings.HasPrefix(ln, "VFCHILD outcome=") {
 						outcome = strings.TrimPrefix(ln, "VFCHILD outcome=")
+					}
+					if strings.HasPrefix(ln, "VFCHILD detail=") {
+						detail += strings.TrimPrefix(ln, "VFCHILD detail=") + " "
 					}
 					if strings.HasPrefix(ln, "panic:") || strings.HasPrefix(ln, "fatal error:") {
 						detail += strings.TrimSpace(ln) + " "
